@@ -6,9 +6,9 @@ package main
 
 import (
 	"fmt"
-	"strconv"
 	"go/ast"
 	"go/token"
+	"strconv"
 	"strings"
 )
 
@@ -23,6 +23,7 @@ func init() {
 	gens["Src_errorhandler.v"] = genGoLiteErrorHandler
 	gens["Src_cors.v"] = genGoLoopCORS
 	gens["Src_bind.v"] = genGoLiteBind
+	gens["Src_keyauth.v"] = genGoLoopKeyAuth
 }
 
 // innerHandler finds the innermost function literal of shape func(c echo.Context) error inside fd.
@@ -92,14 +93,16 @@ type goliteCfg struct {
 	consts map[string]string
 	recv   string
 	locals map[string]bool
-	tail   map[string]bool      // return f(...): f is called (an event) and its result returned
-	loop   bool                 // emit the GoLoop dialect (Base/GoLoop.v): values are integers or strings, range loops, break, pure predicates
-	pure   map[string]bool      // pure functions of the environment: calls become EPred
-	strfn  map[string]bool      // functions known to return a string (for the type-test cells of a field set from their result)
-	objs   map[string][]string  // local variables holding a pointer to a struct, with the fields that are read: scalar-replaced into cells "v.f"
-	grow   map[string][2]string // external call -> (cell, amount cell): the call makes the cell grow (bytes.Buffer.Write: Len() grows by len(b))
-	pre    []string             // external calls met inside an expression: hoisted in front of the statement
-	ntmp   int
+	tail   map[string]bool // return f(...): f is called (an event) and its result returned
+	loop   bool            // emit the GoLoop dialect (Base/GoLoop.v): values are integers or strings, range loops, break, pure predicates
+	pure   map[string]bool // pure functions of the environment: calls become EPred
+	pcall  map[string]bool // functions whose results are a fixed function of their arguments during one request (an extractor, the
+	// validator): `xs := f(args)` becomes SCallP - results from the interpreter's pred, the call is recorded as an event
+	strfn map[string]bool      // functions known to return a string (for the type-test cells of a field set from their result)
+	objs  map[string][]string  // local variables holding a pointer to a struct, with the fields that are read: scalar-replaced into cells "v.f"
+	grow  map[string][2]string // external call -> (cell, amount cell): the call makes the cell grow (bytes.Buffer.Write: Len() grows by len(b))
+	pre   []string             // external calls met inside an expression: hoisted in front of the statement
+	ntmp  int
 }
 
 func (g *goliteCfg) z(n string) string {
@@ -190,6 +193,9 @@ func (g *goliteCfg) expr(e ast.Expr) (string, error) {
 		}
 		return "", fmt.Errorf("call %s in an expression is not understood", n)
 	case *ast.UnaryExpr:
+		if _, isLit := v.X.(*ast.CompositeLit); isLit && v.Op == token.AND {
+			return "ESym " + g.str(lit(v)), nil // a constructed value handed on: named by its spelling
+		}
 		if v.Op == token.NOT {
 			x, err := g.expr(v.X)
 			if err != nil {
@@ -336,6 +342,24 @@ func (g *goliteCfg) stmt(s ast.Stmt) ([]string, error) {
 			return out, err
 		}
 		if len(v.Rhs) == 1 {
+			if ce, ok := v.Rhs[0].(*ast.CallExpr); ok && g.pcall[lit(ce.Fun)] {
+				var xs []string
+				for _, l := range v.Lhs {
+					id, ok := l.(*ast.Ident)
+					if !ok {
+						return nil, fmt.Errorf("results of %s must go to plain variables", lit(ce.Fun))
+					}
+					g.locals[id.Name] = true
+					xs = append(xs, g.str(id.Name))
+				}
+				args, _ := g.exprs(ce.Args)
+				if id, ok := ce.Fun.(*ast.Ident); ok && g.locals[id.Name] {
+					// a function VALUE held in a local (the loop variable): which one it is is the first argument
+					a2, _ := g.exprs(append([]ast.Expr{id}, ce.Args...))
+					args = a2
+				}
+				return []string{fmt.Sprintf("SCallP [%s] %s %s", strings.Join(xs, "; "), g.str(lit(ce.Fun)), args)}, nil
+			}
 			if ce, ok := v.Rhs[0].(*ast.CallExpr); ok && g.extern[lit(ce.Fun)] {
 				var xs []string
 				for _, l := range v.Lhs {
@@ -580,6 +604,9 @@ func (g *goliteCfg) stmt(s ast.Stmt) ([]string, error) {
 	case *ast.BranchStmt:
 		if g.loop && v.Tok == token.BREAK && v.Label == nil {
 			return []string{"SBreak"}, nil
+		}
+		if g.loop && v.Tok == token.CONTINUE && v.Label == nil {
+			return []string{"SCont"}, nil
 		}
 		return nil, fmt.Errorf("%s is not understood", v.Tok)
 	case *ast.RangeStmt:
@@ -920,4 +947,17 @@ func genGoLiteBind(repo string) (string, error) {
 		out += s
 	}
 	return out, nil
+}
+
+func genGoLoopKeyAuth(repo string) (string, error) {
+	s, err := goliteClosure(repo, "middleware/key_auth.go", "KeyAuthWithConfig", "key_auth_handler", goliteCfg{loop: true,
+		ignore: map[string]bool{}, cells: map[string]bool{},
+		tail:   map[string]bool{"next": true},
+		pure:   map[string]bool{},
+		pcall:  map[string]bool{"extractor": true, "config.Validator": true},
+		extern: map[string]bool{"config.Skipper": true, "config.ErrorHandler": true}})
+	if err != nil {
+		return "", err
+	}
+	return goloopHeader + "(* middleware/key_auth.go: the request handler (innermost closure) of KeyAuthWithConfig.  The extractors built by the\n   constructor are a list cell; what an extractor finds and what the validator answers are fixed functions of their arguments\n   for one request (SCallP: results from the interpreter's pred, every call recorded). *)\n" + s, nil
 }
